@@ -22,15 +22,25 @@
                    the memory keystore is not driven with them: outside the property's range)
            Empty   the empty name (Put must refuse; other calls are outside the property).
    EncodeOn = TRUE is the code (base32 file names); FALSE is the non-vacuity control: with raw
-   names as file names TLC must find Confined / ResultsAgree violated.                        *)
+   names as file names TLC must find Confined / ResultsAgree violated.
+
+   Keys:   Keys     proper private keys (marshal / unmarshal faithfully);
+           BadKeys  values of the key TYPE that are not keys: serialising them fails (a
+                    ci.PrivKey whose Raw() errors).  A map cannot store them: Put refuses with
+                    class "invalid" (= any error but exists / not-found) and -- like EVERY refused call -- changes nothing
+                    (FailedCallChangesNothing).  The memory keystore keeps the Go value and
+                    never serialises, so it is not driven with them ("skip").
+   A Put that is refused for several reasons at once (bad key under a name already stored or
+   an invalid name) may report any of them: PutRefusals.                                      *)
 EXTENDS Naturals, Sequences, FiniteSets, TLC, Json
 
-CONSTANTS Normal, Escaping, Long, Empty, Keys, EncodeOn
+CONSTANTS Normal, Escaping, Long, Empty, Keys, BadKeys, EncodeOn
 
 Names  == Normal \cup Long \cup Empty
 NoKey  == 0
 Decoy  == 99                     \* content of every out-of-directory decoy file (a valid key never Put)
-ASSUME Keys \subseteq 1..98 /\ Escaping \subseteq Normal
+ASSUME Keys \subseteq 1..98 /\ BadKeys \subseteq 1..98 /\ Keys \cap BadKeys = {} /\ Escaping \subseteq Normal
+PutKeys == Keys \cup BadKeys  \* what a caller may hand to Put
 
 VARIABLES m, disk, mem, res
 vars == <<m, disk, mem, res>>
@@ -51,15 +61,27 @@ Init == m = M0 /\ disk = Disk0 /\ mem = M0 /\ res = NoRes
 
 MemClass(n, c) == IF n \in Long THEN "skip" ELSE c     \* memory keystore not driven with Long names
 
-(* ---- Put: encode; O_CREATE|O_EXCL; write ------------------------------------------------ *)
-Put(n, k) ==
-  LET rf == IF ~FsValid(n) THEN "invalid" ELSE IF disk[Target(n)] # NoKey THEN "exists" ELSE "ok"
-      rm == IF n \in Empty THEN "invalid" ELSE IF mem[n] # NoKey THEN "exists" ELSE "ok"
-      rw == IF ~FsValid(n) THEN "invalid" ELSE IF m[n] # NoKey THEN "exists" ELSE "ok"
-  IN /\ disk' = IF rf = "ok" THEN [disk EXCEPT ![Target(n)] = k] ELSE disk
-     /\ mem'  = IF n \notin Long /\ rm = "ok" THEN [mem EXCEPT ![n] = k] ELSE mem
+(* ---- Put: encode; marshal; O_CREATE|O_EXCL; write ----------------------------------------
+   Refusals(n, k, present): every reason for which the call must be refused; the call succeeds
+   iff there is none, otherwise it reports one of them and leaves everything as it was.
+   PutR(n, k, rf) is the call reporting class rf on the file system keystore.                  *)
+Refusals(n, k, present) == (IF ~FsValid(n) THEN {"invalid"} ELSE {}) \cup (IF k \in BadKeys THEN {"invalid"} ELSE {})
+                           \cup (IF present THEN {"exists"} ELSE {})
+ClassSet(refusals) == IF refusals = {} THEN {"ok"} ELSE refusals
+\* the order of the checks in the code: name, key, exclusive create
+CodeOrder(refusals) == IF "invalid" \in refusals THEN "invalid" ELSE IF "exists" \in refusals THEN "exists" ELSE "ok"
+PutFs(n, k) == ClassSet(Refusals(n, k, FsValid(n) /\ disk[Target(n)] # NoKey))
+PutR(n, k, rf) ==
+  LET rm == IF n \in Empty THEN "invalid" ELSE IF mem[n] # NoKey THEN "exists" ELSE "ok"
+      wc == ClassSet(Refusals(n, k, m[n] # NoKey))          \* what the map allows the call to report
+      rw == IF rf \in wc THEN rf ELSE CodeOrder(wc)
+      memDriven == n \notin Long /\ k \notin BadKeys
+  IN /\ rf \in PutFs(n, k)
+     /\ disk' = IF rf = "ok" THEN [disk EXCEPT ![Target(n)] = k] ELSE disk
+     /\ mem'  = IF memDriven /\ rm = "ok" THEN [mem EXCEPT ![n] = k] ELSE mem
      /\ m'    = IF rw = "ok" THEN [m EXCEPT ![n] = k] ELSE m
-     /\ res'  = [NoRes EXCEPT !.op = "Put", !.n = n, !.k = k, !.fs = rf, !.mem = MemClass(n, rm), !.want = rw]
+     /\ res'  = [NoRes EXCEPT !.op = "Put", !.n = n, !.k = k, !.fs = rf, !.mem = IF memDriven THEN rm ELSE "skip", !.want = rw]
+Put(n, k) == \E rf \in PutFs(n, k) : PutR(n, k, rf)
 
 (* ---- Get: encode; ReadFile; unmarshal ---------------------------------------------------- *)
 Get(n) ==
@@ -107,7 +129,7 @@ List ==
 Reopen == /\ UNCHANGED <<m, disk, mem>>
           /\ res' = [NoRes EXCEPT !.op = "Reopen"]
 
-Next == \/ \E n \in Names : (\E k \in Keys : Put(n, k)) \/ Get(n) \/ Has(n) \/ Delete(n)
+Next == \/ \E n \in Names : (\E k \in PutKeys : Put(n, k)) \/ Get(n) \/ Has(n) \/ Delete(n)
         \/ List \/ Reopen
 Spec == Init /\ [][Next]_vars
 
@@ -129,4 +151,10 @@ InvalidNeverStored == \A n \in Long \cup Empty : m[n] = NoKey /\ disk[InP(n)] = 
 \* a stored key is never replaced without a Delete
 NoOverwriteStep == \A n \in Names : (disk[InP(n)] # NoKey /\ disk'[InP(n)] # NoKey) => disk'[InP(n)] = disk[InP(n)]
 NoOverwrite == [][NoOverwriteStep]_vars
+\* a call that reports a failure (any class but ok / true / false) changed nothing: not the map, not a
+\* single path inside or outside the directory, not the memory keystore
+FailedStep == res'.fs \notin {"ok", "true", "false"} => UNCHANGED <<m, disk, mem>>
+FailedCallChangesNothing == [][FailedStep]_vars
+\* a bad key is never stored, anywhere
+BadNeverStored == \A n \in Names : m[n] \notin BadKeys /\ mem[n] \notin BadKeys /\ \A p \in Paths : disk[p] \notin BadKeys
 =============================================================================
